@@ -50,6 +50,10 @@ def one(ctx, i):
         for j_, e_ in enumerate(spec['chain']):
             e_['name'] = f"{e_['name']}.{j_}" if j_ % 2 else f"{e_['name']} stage-{j_}.1"
         ctx.count('dotted_names')
+    if i % 6 == 1 and len(spec['chain']) >= 2:
+        # two elements whose names differ only by a trailing blank (distinct names for Powertrain, hence two files)
+        spec['chain'][0]['name'], spec['chain'][1]['name'] = 'part', 'part '
+        ctx.count('names_differing_by_a_trailing_blank')
     if i % 4 == 2:
         GEN.add_const_rules(rng, spec)
     if i % 4 == 3:
